@@ -44,10 +44,21 @@ func (s c11Step) String() string {
 type c11Fault struct {
 	pos  int    // the fault fires before step pos (len(script) = after the last step) ...
 	frag int    // ... or, if > 0, inside frame step pos after `frag` fragments were delivered
-	kind string // rerr reof half lclose wpart dataeof
+	kind string // rerr reof half lclose wpart dataeof; with an error kind: rkind dkind wkind0 wkindp
+	ek   string // rkind dkind wkind*: name of the error kind (c11kinds.go)
+	once bool   // ... reported by one Read only, io.EOF afterwards (false: by every Read)
 }
 
-func (f c11Fault) String() string { return fmt.Sprintf("%s@%d.%d", f.kind, f.pos, f.frag) }
+func (f c11Fault) String() string {
+	if f.ek == "" {
+		return fmt.Sprintf("%s@%d.%d", f.kind, f.pos, f.frag)
+	}
+	p := "persistent"
+	if f.once {
+		p = "once-then-EOF"
+	}
+	return fmt.Sprintf("%s@%d.%d[%s,%s]", f.kind, f.pos, f.frag, f.ek, p)
+}
 
 type c11Scenario struct {
 	name    string
@@ -175,6 +186,16 @@ func runC11(res *hx.Result, rng *hx.Rng, tier string, outdir string) {
 		sort.SliceStable(js, func(a, b int) bool { return js[a].f.pos > js[b].f.pos })
 		jobs = append(jobs, js...)
 	}
+	// the same runs, and the loss in every kind of error, through the real wrapper of bus/net
+	for si, sc := range scs {
+		js := c11Jobs(sc)
+		for k := range js {
+			js[k].wrap = "conn"
+		}
+		js = append(js, c11KindJobs(sc, si)...)
+		sort.SliceStable(js, func(a, b int) bool { return js[a].f.pos > js[b].f.pos })
+		jobs = append(jobs, js...)
+	}
 	if tier == "thorough" { // every run twice more: the goroutines after the loss are scheduled by the runtime
 		jobs = append(append(append([]c11Job{}, jobs...), jobs...), jobs...)
 	}
@@ -193,7 +214,7 @@ func runC11(res *hx.Result, rng *hx.Rng, tier string, outdir string) {
 				if atomic.LoadInt32(&c11HungFail) >= 3 || atomic.LoadInt32(&c11Hung) >= 24 {
 					continue // enough hung runs: the rest would only wait
 				}
-				obs[k] = c11Exec(jobs[k].sc, jobs[k].f, jobs[k].hold, hang)
+				obs[k] = c11Exec(jobs[k].sc, jobs[k].f, jobs[k].hold, jobs[k].wrap, hang)
 			}
 		}()
 	}
@@ -203,7 +224,8 @@ func runC11(res *hx.Result, rng *hx.Rng, tier string, outdir string) {
 	cf := hx.NewCases(outdir, "C11", "From QV Require Import ConnLoss C11Run.", "mismatches ccases", res, "ccases", "ccase")
 	cf.Extra = append(cf.Extra, "Definition cfg_observed := cfg0.")
 	var maxLat time.Duration
-	aborted, ops, skipped := 0, 0, 0
+	aborted, ops, skipped, same := 0, 0, 0, 0
+	seen := map[string]bool{}
 	for k, j := range jobs {
 		o := obs[k]
 		if o == nil {
@@ -211,8 +233,14 @@ func runC11(res *hx.Result, rng *hx.Rng, tier string, outdir string) {
 			continue
 		}
 		desc := fmt.Sprintf("%s fault=%s hold=%v", j.sc.String(), j.f.String(), j.hold)
+		if j.wrap != "" {
+			desc += " stream=net.ConnStream(gated net.Conn)"
+		}
 		res.Count(desc, o.pendingAtFault >= 1)
 		res.Dist("fault:" + j.f.kind)
+		if j.f.ek != "" {
+			res.Dist("errkind:" + j.f.ek)
+		}
 		res.Dist(fmt.Sprintf("pending:%d", o.pendingAtFault))
 		ops += o.opsTotal
 		if o.aborted != "" {
@@ -230,6 +258,11 @@ func runC11(res *hx.Result, rng *hx.Rng, tier string, outdir string) {
 			res.Fail("c11-oracle", fmt.Sprintf("%s: %s | forced labels: %s", desc, f, strings.Join(o.labels, "; ")))
 		}
 		term := c11CaseTerm(j.sc, o)
+		if j.wrap != "" && seen[term] {
+			same++ // forced labels and observations identical to a case already written: nothing new for the model
+			continue
+		}
+		seen[term] = true
 		cf.Add("ccases", term, desc)
 		if k%97 == 0 {
 			res.Sample(desc + " => " + term)
@@ -242,12 +275,14 @@ func runC11(res *hx.Result, rng *hx.Rng, tier string, outdir string) {
 			reps = 20
 		}
 		c11RealPipe(res, hang, reps)
+		c11RealKinds(res, hang, tier)
 	}
 	res.Exhaustive = skipped == 0
 	if skipped > 0 {
 		res.Notes = append(res.Notes, fmt.Sprintf("%d runs skipped after %d runs hit a deadline", skipped, atomic.LoadInt32(&c11Hung)))
 	}
 	res.Notes = append(res.Notes,
+		fmt.Sprintf("%d of the runs through net.ConnStream gave a case term (forced labels + observations) already compared with the model and were not written again", same),
 		fmt.Sprintf("%d scenarios, %d runs, %d stream operations in total; fault injected at every script position, inside every Write and after every fragment of every fragmented frame", len(scs), len(jobs), ops),
 		fmt.Sprintf("wall-clock bound asserted by the oracles: every wait %v; largest latency from loss (or release of the held Close) to a call's return: %v", hang, maxLat),
 		"no defect switch is defined for C11: the pinned code showed no violation")
